@@ -732,4 +732,55 @@ theorem startup_ptttype_first_uses_empty_table (fs : FS) (pb pu : String) (cb cu
       hz, hz', hb, hpb, hu, hpu, bind, Except.bind, pure, Except.pure]
     simp
 
+/-! #### M. the loader's accept rule (exactly two ' '-separated fields) against rows by content -/
+
+/-- the loader's rule as it is: a line that does not split into exactly two pieces at ' ' is skipped — silently. -/
+theorem parseLine_skips_unless_two_fields (line : Bytes) (h : (split 32 line).length ≠ 2) : parseLine line = .ok none := by
+  simp [parseLine, h, pure, Except.pure]
+
+/-- counts over the regenerated table files (translator): every line that is a row by content (first two fields
+`0xHHHH 0xHHHH`, whatever follows) is also a row by the loader's rule — no row of the real files is silently dropped.
+(An inline comment behind a row breaks this theorem.) -/
+theorem real_tables_no_row_dropped :
+    Gen.Big5.b2uRowsByContent = Gen.Big5.b2uRowsByLoaderRule ∧ Gen.Big5.u2bRowsByContent = Gen.Big5.u2bRowsByLoaderRule := by
+  decide
+
+/-- witness of the broken combination, for every row: the row followed by an inline comment is a row by content, and
+the loader skips it. -/
+theorem commented_row_is_dropped (k cp : Nat) (hk : k < 65536) (hc : cp < 65536) (comment : Bytes) :
+    parseLine (renderRow k cp false ++ [32, 35] ++ comment) = .ok none ∧
+    rowByContent (renderRow k cp false ++ [32, 35, 99]) = some ([k / 256, k % 256], cp) := by
+  have n1 := (upHex_facts (k / 4096 % 16) (by omega))
+  have n2 := (upHex_facts (k / 256 % 16) (by omega))
+  have n3 := (upHex_facts (k / 16 % 16) (by omega))
+  have n4 := (upHex_facts (k % 16) (by omega))
+  have m1 := (upHex_facts (cp / 4096 % 16) (by omega))
+  have m2 := (upHex_facts (cp / 256 % 16) (by omega))
+  have m3 := (upHex_facts (cp / 16 % 16) (by omega))
+  have m4 := (upHex_facts (cp % 16) (by omega))
+  constructor
+  · apply parseLine_skips_unless_two_fields
+    have e : renderRow k cp false ++ [32, 35] ++ comment =
+        ([48, 120] ++ hex4 k) ++ 32 :: (([48, 120] ++ hex4 cp) ++ 32 :: (35 :: comment)) := by
+      simp [renderRow]
+    rw [e, split_piece, split_piece]
+    · have := splitAux_ne_nil 32 (35 :: comment) [] []
+      unfold split
+      cases hs : splitAux 32 (35 :: comment) [] [] with
+      | nil => exact absurd hs this
+      | cons a as => simp
+    · simp [hex4]; omega
+    · simp [hex4]; omega
+  · have b1 : ∀ d, d < 16 → isBlank (upHex d) = false := by decide
+    have c1 : isBlank 48 = false := by decide
+    have c2 : isBlank 120 = false := by decide
+    have c3 : isBlank 32 = true := by decide
+    have c4 : isBlank 35 = false := by decide
+    have c5 : isBlank 99 = false := by decide
+    simp [rowByContent, fields, fieldsAux, renderRow, hex4, c1, c2, c3, c4, c5, b1 _ (show k / 4096 % 16 < 16 by omega),
+      b1 _ (show k / 256 % 16 < 16 by omega), b1 _ (show k / 16 % 16 < 16 by omega), b1 _ (show k % 16 < 16 by omega),
+      b1 _ (show cp / 4096 % 16 < 16 by omega), b1 _ (show cp / 256 % 16 < 16 by omega), b1 _ (show cp / 16 % 16 < 16 by omega),
+      b1 _ (show cp % 16 < 16 by omega), hexField, n1.1, n2.1, n3.1, n4.1, m1.1, m2.1, m3.1, m4.1]
+    omega
+
 end PttVerif.C17.Props
